@@ -29,7 +29,8 @@ def grammar_text(rng, depth=3):
             return rng.choice("xyzabn")
         if r < 0.8:
             return rng.choice("([") + add(d - 1) + rng.choice(")]")
-        return "sgn(" + add(d - 1) + ")"
+        # other spellings / longer letter runs are products of one-letter variables, not a function
+        return rng.choice(["sgn", "sgn", "sgn", "Sgn", "SGN", "sGn", "sgns", "xsgn", "abs"]) + "(" + add(d - 1) + ")"
 
     def factors(d):
         s = "".join(prim(d) for _ in range(rng.choice([1, 1, 1, 2, 2, 3])))
@@ -73,7 +74,8 @@ def grammar_text(rng, depth=3):
 
 
 MALFORMED_PIECES = ["2", "2.5", "1.2.3", ".", "x", "y", "+", "-", "*", "/", "^", "!", "=", "(", ")", "[", "]",
-                    "sgn", "abs", " ", "\t", "–", "#", "$", "é", "e", "1e5", "00", "007", "x!", "sgn(", ")(", "^^"]
+                    "sgn", "abs", " ", "\t", "–", "#", "$", "é", "e", "1e5", "00", "007", "x!", "sgn(", ")(", "^^",
+                    "Sgn(", "SGN(", "sgN", "S", "G"]
 
 
 def malformed_text(rng):
@@ -487,9 +489,40 @@ def c11(ctx):
                 bad.append({"text": t, "oracle": {"problem": "padding mode changes non-pad tokens"}})
         elif a and b and a[0] != b[0]:
             bad.append({"text": t, "oracle": {"problem": "padding mode changes the outcome kind"}})
-    ctx.coverage["evaluations"] += len(items)
+    # a tokenizer object is long-lived (the parser keeps one): a call's answer must not depend on
+    # the calls made before it on the same object, in particular not on a call that was rejected.
+    # ALL sequences of 2 and 3 calls over a small text set (with rejected inputs that have a valid
+    # prefix) and random longer ones, on ONE Tokenizer per sequence and mode; every answer
+    # compared with the model's answer for that text alone.
+    seq_texts = ["7y*#", "x^2", "#", "2.5+", "sgn(x)$", "", "4 + 2", "é1"]
+    seqs = [list(c) for k in (2, 3) for c in itertools.product(seq_texts, repeat=k)]
+    pool_txt = [t for t in texts if 0 < len(t) <= 6]
+    for _ in range(300 if quick else 20000):
+        seqs.append([rng.choice(seq_texts + [rng.choice(pool_txt)]) for _ in range(rng.randint(4, 10))])
+    uniq = sorted({(t, p) for sq in seqs for t in sq for p in (False, True)})
+    single = dict(zip(uniq, (pr.model_tok_answer(a) for a in
+                             drv.ask([f"tok {1 if p else 0} {pr.text_wire(t)}" for t, p in uniq]))))
+    n_seq = 0
+    for sq in seqs:
+        for pmode in (False, True):
+            tk = pr.T.Tokenizer(exclude_padding=not pmode)
+            n_seq += 1
+            for k, t in enumerate(sq):
+                try:
+                    r = ("toks", [(pr.TT_NAMES.get(x.type, str(x.type)), x.value) for x in tk.tokenize(t)])
+                except ValueError as e:
+                    r = pr.classify_value_error(e)
+                except Exception as e:  # noqa
+                    r = ("internal", type(e).__name__)
+                if r != single[(t, pmode)]:
+                    bad.append({"text": t, "pad": pmode, "calls_before_on_same_tokenizer": sq[:k],
+                                "oracle": {"problem": "answer depends on earlier calls on the same Tokenizer",
+                                           "got": r, "alone": single[(t, pmode)]}})
+                    break
+    ctx.notes["call_sequences_on_one_tokenizer"] = n_seq
+    ctx.coverage["evaluations"] += len(items) + n_seq
     ctx.coverage["distinct_nontrivial"] += nontrivial
-    ctx.coverage["traces_validated_against_impl"] += len(items)
+    ctx.coverage["traces_validated_against_impl"] += len(items) + n_seq
     ctx.notes["generator"] = {"strings": len(texts), "modes": 2}
     for t in texts[3000:: max(1, len(texts) // 8)][:8]:
         ctx.sample({"text": t})
